@@ -361,7 +361,11 @@ def corr_range(hbin, wd, tier, seed):
 
 
 def check_C03(tier, seed, replay=None):
-    return ref_family_check("C03", tier, seed, [("range", 3000), ("epoch:range", 500)], [("range", 60000), ("epoch:range", 10000)], corr=corr_range)
+    corr_k = _corr_generic("kernelcases", "C03", "RangeFns.range_fn (Kahan sum, mean, variance, min/max, changes, resets, regression, instant value, "
+                           "extrapolated rate; primitive floats) vs function.Funcs[name] called on generated point lists (0-20 points: counters "
+                           "with resets, gauges, constants, NaN/Inf/denormals/huge, nearly equal values)", 400, 4000, shards_quick=8, shards_thorough=16)
+    return ref_family_check("C03", tier, seed, [("range", 3000), ("epoch:range", 500)], [("range", 60000), ("epoch:range", 10000)],
+                            corr=_corr_multi(corr_range, corr_k))
 
 
 def _corr_generic(cmd, prop, model_text, per_quick, per_thorough, shards_quick=8, shards_thorough=32):
